@@ -321,6 +321,21 @@ def run_case(case: dict, driver):
     agent = RecordingAgent(rr, rs, rec)
     inter = Interaction(agent, genv)
     per_step = case.get("per_step", True)
+    # a second, unrelated agent / environment pair alive in the same process (an evaluation run next to the training
+    # run) that asks for a reset at every step: nothing of it may show in the pair under test
+    other = None
+    if case.get("neighbour"):
+        orec = Rec()
+        oagent = RecordingAgent([True] * 4096, [True] * 4096, orec)
+        other = Interaction(oagent, GymEnvironment(ScriptedEnv([(False, False)] * 4096, orec)))
+        other.setup()
+        _plain_step = inter.step
+
+        def _step_with_neighbour():
+            other.step()
+            _plain_step()
+            other.step()
+        inter.step = _step_with_neighbour
 
     lines = [f"gym reset flags=[{','.join(case['flags'])}] rr=[{','.join(b(x) for x in rr)}] "
              f"rs=[{','.join(b(x) for x in rs)}]"]
@@ -522,7 +537,7 @@ def random_case(rng, max_len: int) -> dict:
     rs = [int(rng.random() < p_req) for _ in range(n + second + 2)]
     return {"flags": flags, "rr": rr, "rs": rs, "n": n, "second": second,
             "user_request": rng.random() < 0.15, "by_id": rng.random() < 0.1,
-            "per_step": rng.random() < 0.5}
+            "per_step": rng.random() < 0.5, "neighbour": rng.random() < 0.2}
 
 
 def suite_random(ctx: Ctx) -> SuiteResult:
